@@ -38,7 +38,11 @@ CLAIMS = {
             "match_tree matches with exact bindings. The same cuts (rendered as JavaScript) and holes cut textually in "
             "error-free nodes of all 23 corpus languages are run through the real Pattern::match_node; Trace_Match "
             "checks the premise (pattern has the shape of the code) and the exact bindings, and compares the "
-            "transcription's prediction with the real verdict and environment (drift).",
+            "transcription's prediction with the real verdict and environment (drift). Contextual patterns (context + "
+            "selector): Contextual.tla states which node the selector denotes, MC_Contextual checks the search the code "
+            "performs against it on all trees up to the bound (two wrong variants must be rejected), and cuts left inside "
+            "the text of an enclosing node are run through Pattern::contextual in all 23 languages and judged against the "
+            "recorder's own parse.",
             "tree-sitter parses are the reference; bounded lists/one nesting level in the model; finite corpus",
             "DESIGN.md section 3 C02"),
     "C03": ("model_checking",
@@ -191,7 +195,10 @@ CLAIMS = {
             "(nested directories, empty / non-UTF-8 / oversized files) with AST_GREP_VERIF_SCHED perturbing the "
             "interleaving; Trace_Worker replays every hook trace into Worker.tla (IsEvent + action, invariants on every "
             "state) and requires the printed JSON records to equal, as a bag, the union of per-file runs, the output to "
-            "parse, --inspect summary to report scanned = all files and skipped = faulty files, and exit status 0.",
+            "parse, --inspect summary to report scanned = all files and skipped = faulty files, and the exit status to follow the "
+            "tally. One tree is a project whose languageGlobs tell files of one extension apart (a file's language must not "
+            "depend on its neighbours). proofs/WorkerProofs.tla: TLAPS proves for ANY number of files and threads that "
+            "the model hands out every file at most once and, when the run is over, exactly once.",
             "ignore::WalkParallel is trusted to hand out each file once; schedules are sampled, not enumerated; no "
             "permission faults (root sandbox); a panic inside a walker thread is C11's concern",
             "DESIGN.md section 3 C17"),
@@ -206,9 +213,11 @@ CLAIMS = {
             "files without matches) and run with --json=stream and then -U, twice; Trace_C18 requires every file to "
             "equal FinalP(before, announced edits) - byte-identical when nothing was announced -, 'Applied N' to equal "
             "the number of accepted edits and exit status 0; the write hook events are compared with the model's one "
-            "write per document (drift).",
-            "the --json twin run is assumed to announce what -U would propose (same command, same tree); interactive "
-            "prompts (non accept-all) are not driven",
+            "write per document (drift). Stage 2 (outside the statement, reported as EXTENSION-FINDING only): Interactive.tla "
+            "models the interactive session of which -U is the accept-everything case (keys y/n/a/q/e/Enter/other); "
+            "MC_Interactive checks its user-level invariants for every key sequence up to the bound and rejects two wrong "
+            "variants; real `run -r .. -i` sessions typed into a pseudo terminal are judged by Trace_Interactive.",
+            "the --json twin run is assumed to announce what -U would propose (same command, same tree)",
             "DESIGN.md section 3 C18"),
     "C12": ("model_checking",
             "declarative Accept(doc) vs transcription of the loader's checks (Config.tla) model-checked by TLC over all "
